@@ -62,4 +62,22 @@ def sample : Hierarchy where
       ownAnn := [("a", strH)] },
     { params := [], ownOrigBases := none, bases := [⟨2, none⟩], mro := [3, 2, 1, 0], ownAnn := [] }]
 
+/-- ```
+    class Pair(Generic[K, V]):                        first: K ; second: V
+    class Swapped(Pair[V, K], Generic[K, V]):         pass       # the parent's OWN type variables, re-ordered
+    class SwappedDeep(Swapped[V, K], Generic[K, V]):  tail: K    # swapped twice: the original order again
+    ```
+    `K = 0`, `V = 1`: argument and parameter are the very same TypeVar objects,
+    only their order differs. -/
+def pairSwapped : Hierarchy where
+  kind := .dataclass
+  tvars := [(0, ⟨[], none⟩), (1, ⟨[], none⟩)]
+  classes := [
+    { params := [0, 1], ownOrigBases := some [], bases := [], mro := [0],
+      ownAnn := [("first", .tv 0), ("second", .tv 1)] },
+    { params := [0, 1], ownOrigBases := some [⟨0, some [.tv 1, .tv 0]⟩], bases := [⟨0, none⟩], mro := [1, 0],
+      ownAnn := [] },
+    { params := [0, 1], ownOrigBases := some [⟨1, some [.tv 1, .tv 0]⟩], bases := [⟨1, none⟩], mro := [2, 1, 0],
+      ownAnn := [("tail", .tv 0)] }]
+
 end Adaptix.Generic
